@@ -635,7 +635,7 @@ def run (cfg):
               "second arriving after 0..8 scheduler steps or at rest; the same piles of 1023..4097 (thorough ..16385) calls from one and 1025 from each of two controlled foreign "
               "threads with both hubs (default schedule).  "
               "Cooperative Lock against an owner-less reference lock: every `owned' program of 2-3 tasks x acquire/try-acquire/release/yield "
-              "scripts on 1-2 locks (a script releases only what it took), and every free-form program - any task may release, locks created "
+              "scripts on 1-2 locks (a script releases only what it took), and every free-form program (scripts ending in a lock operation) - any task may release, locks created "
               "free or held (Lock(locked=True)), acquire/release also done inside a task_function helper (another task object): "
               "2 tasks x scripts <= 3 ops and 3 tasks x scripts <= 2 ops on one lock, 2 tasks x scripts <= 2 ops on two locks - each with every "
               "waiter-pop choice.  distinct = (scenario, hub, verdict, observation)")
